@@ -1399,6 +1399,10 @@ def output_kind(got: Any, ref: Any) -> str:
     """sub-bucket of an output mismatch"""
     if isinstance(ref, list) and isinstance(got, list) and len(got) != len(ref):
         return "output-differs:list-length"
+    if isinstance(ref, dict) and isinstance(got, dict) and "file" in ref and "file" in got and ref["file"].endswith("|body"):
+        # loop shape: the value of an earlier iteration (fewer applications of the body) is returned
+        if ref["file"].startswith(got["file"]) and got["file"] != ref["file"]:
+            return "output-differs:loop-returns-earlier-iteration"
     return "output-differs"
 
 
